@@ -418,4 +418,109 @@ def diffMapObj (before after all : List Op) (obj : ObjId) : List (PatchAction ×
     | some o => mapPatchOf k o
     | none => [])
 
+/-! ### lists: running index (`ListDiff.index`) -/
+
+/-- the events of the elements of a list in document order, each with the index it addresses: the
+    index advances past an element that is visible afterwards (`ListDiff::next`: `self.index += 1`
+    when the returned item `is_visible()`) -/
+def listDiffEvents : Nat → List (List DItem) → List (Nat × RegEvent)
+  | _, [] => []
+  | idx, items :: rest =>
+    match listDiff items with
+    | none => listDiffEvents idx rest
+    | some o => (idx, o.listEvent) :: listDiffEvents (if o.diff != .del then idx + 1 else idx) rest
+
+/-- `hydrate::List::apply` on the shallow list view (conflict flag, value), one logged event:
+    `Insert` = `SequenceTree::insert`, `DeleteSeq{length: 1}` = `remove`, `PutSeq` / `Increment` /
+    `Conflict` address an existing index (`InvalidIndex` otherwise) -/
+def applySeqEvent (l : List (Bool × PVal)) (i : Nat) : RegEvent → HOut (List (Bool × PVal))
+  | .insert v c _ => seqInsert l i (c, v)
+  | .del => seqRemove l i
+  | .nothing => .ok l
+  | ev =>
+    match l[i]? with
+    | none => .err .index
+    | some b =>
+      match applyEvent (some b) ev with
+      | .ok (some a) => .ok (l.set i a)
+      | .ok none => .ok l
+      | .err e => .err e
+      | .panic p => .panic p
+
+def applySeqEvents : List (Bool × PVal) → List (Nat × RegEvent) → HOut (List (Bool × PVal))
+  | l, [] => .ok l
+  | l, (i, ev) :: rest =>
+    match applySeqEvent l i ev with
+    | .ok l' => applySeqEvents l' rest
+    | .err e => .err e
+    | .panic p => .panic p
+
+/-! ### `diff_obj(obj, H1, H2, recursive = false)` of a list object -/
+
+/-- the items of one element (the insert op and the overwrites of the element), as `diffItemsOf` -/
+def diffElemItems (before after : List Op) (all : List Op) (obj : ObjId) (e : OpId) : List DItem :=
+  let cands := sortById (all.filter (fun o => o.obj == obj && o.elem == some e && o.isValue))
+  cands.filterMap (fun o =>
+    let vb := before.contains o && visible before o
+    let va := after.contains o && visible after o
+    if !vb && !va then none else
+    let diff : Diff := if vb && va then .same else if va then .add else .del
+    let (val, inc) : PVal × Int :=
+      match o.action with
+      | .put (.counter c) => (.scalar (.counter (c + incSum after o)), incSum after o - incSum before o)
+      | .put v => (.scalar v, 0)
+      | .make t => (.obj t, 0)
+      | _ => (.scalar .null, 0)
+    some ⟨diff, o.id, val, inc, before.contains o⟩)
+
+/-- a sequence patch with the ids printed next to its values -/
+inductive SeqPatch where
+  | insert (index : Nat) (vs : List (PVal × OpId × Bool))
+  | put (index : Nat) (v : PVal) (id : OpId) (conflict : Bool)
+  | inc (index : Nat) (n : Int)
+  | conflict (index : Nat)
+  | del (index length : Nat)
+  deriving DecidableEq, Repr, Inhabited
+
+/-- `PatchBuilder::{insert, put, increment, flag_conflict, delete_seq}` on the patches of one object
+    (newest first): adjacent inserts and deletes are merged, a conflict flag joins the put before it -/
+def pushSeq (acc : List SeqPatch) (idx : Nat) (o : DOut) : List SeqPatch :=
+  let flag (acc : List SeqPatch) : List SeqPatch :=
+    match acc with
+    | .put i v id _ :: rest => if i == idx then .put i v id true :: rest else .conflict idx :: acc
+    | _ => .conflict idx :: acc
+  match o.listEvent with
+  | .insert v c _ =>
+    match acc with
+    | .insert t vs :: rest =>
+      if t ≤ idx && idx ≤ t + vs.length then .insert t (vs.take (idx - t) ++ (v, o.id, c) :: vs.drop (idx - t)) :: rest
+      else .insert idx [(v, o.id, c)] :: acc
+    | _ => .insert idx [(v, o.id, c)] :: acc
+  | .put v c _ => .put idx v o.id c :: acc
+  | .inc n => .inc idx n :: acc
+  | .incFlag n => flag (.inc idx n :: acc)
+  | .flag => flag acc
+  | .del =>
+    match acc with
+    | .del t len :: rest => if idx == t then .del t (len + 1) :: rest else .del idx 1 :: acc
+    | .insert t vs :: rest =>
+      if t ≤ idx && idx < t + vs.length then
+        (let vs' := vs.take (idx - t) ++ vs.drop (idx - t + 1)
+         if vs'.isEmpty then rest else .insert t vs' :: rest)
+      else .del idx 1 :: acc
+    | _ => .del idx 1 :: acc
+  | .nothing => acc
+
+/-- `ListDiff` over the elements in document order, with its running index, through `PatchBuilder` -/
+def diffListLoop (before after all : List Op) (obj : ObjId) : List Op → Nat → List SeqPatch → List SeqPatch
+  | [], _, acc => acc.reverse
+  | e :: rest, idx, acc =>
+    match listDiff (diffElemItems before after all obj e.id) with
+    | none => diffListLoop before after all obj rest idx acc
+    | some o => diffListLoop before after all obj rest (if o.diff != .del then idx + 1 else idx) (pushSeq acc idx o)
+
+/-- the own-level patches `diff_obj(obj, H1, H2, false)` emits for a list object -/
+def diffListObj (before after all : List Op) (obj : ObjId) : List SeqPatch :=
+  diffListLoop before after all obj ((rgaOrder all obj).filter (fun e => !e.isMark)) 0 []
+
 end AmVerif.Crdt
